@@ -14,27 +14,43 @@ OBLIGATIONS = [
     "KafVerif.C32.produceOld_violates",
     "KafVerif.C32.completeOld_subset_violates",
     "KafVerif.C32.partOld_rehash_violates",
+    "KafVerif.C32.locked_schedules_are_serial",
+    "KafVerif.C32.http_ok_sound_concurrent",
+    "KafVerif.C32.concurrent_part_never_returns_envelope",
+    "KafVerif.C32.split_lock_violates",
+    "KafVerif.C32.produce_part_fault_is_error",
+    "KafVerif.C32.retry_consumed_body_violates",
+    "KafVerif.C32.retry_before_read_harmless",
 ]
 BUILDS = {"h": ("root", "./cmd/proxy", ["C30", "C32"])}
 LEVEL_TEXT = ("Lean 4 theorems: after every history of multipart session operations (any part numbers/sizes, re-PUTs, S3 "
               "failures, completion lists, expiry, abort, broker replies) a completion answered 200 implies the stored object is "
               "exactly the data the envelope's size and SHA-256 were computed over and the broker acknowledged with code 0 "
               "(http_ok_sound, invariant by induction over the history); the same for the single-request path "
-              "(produce_ok_sound). Tied to the source by driving the real HTTP handlers with a ghost S3 (real multipart "
+              "(produce_ok_sound); and for every SCHEDULE of overlapping part requests (per-request steps check / S3 upload / "
+              "record interleaved with the other session operations) under the code's locking — session lock held across the "
+              "S3 call — every lock-free state is a state of the sequential machine (locked_schedules_are_serial), so the "
+              "same soundness holds (http_ok_sound_concurrent); witnesses for the split-lock and the retry-with-consumed-body "
+              "variants. Tied to the source by driving the real HTTP handlers with a ghost S3 (real multipart "
               "semantics) and a scripted broker socket, diffed against the model, plus a direct monitor.")
-LEVEL_NOTE = ("Payload bytes are abstract chunks in the model (hash functions never computed); one session at a time; S3 "
+LEVEL_NOTE = ("Payload bytes are abstract chunks in the model (hash functions never computed); one session at a time; the "
+              "session lookup is merged with taking the session lock in the concurrent model; S3 "
               "multipart semantics (object = concatenation of the listed parts, ascending order, matching ETags) and the broker "
               "reply classes are the model's parameters, implemented by the harness fakes.")
 TECHNIQUE = "Lean 4 proof (invariant over a transition system) + Go/Lean differential correspondence + direct monitor"
 ASSUMPTIONS = [
-    "S3: CompleteMultipartUpload builds the object from exactly the listed parts (ascending numbers, matching ETags); a failed UploadPart stores nothing",
-    "one upload session at a time, requests of a session are sequential (the session mutex serialises them in the code)",
+    "S3: CompleteMultipartUpload builds the object from exactly the listed parts (ascending numbers, matching ETags); a failed UploadPart stores nothing; S3 consumes the request body of a call whether or not the call then fails (fail-after-read), except for connection-level failures (fail-before-read)",
+    "one upload session at a time; its requests may overlap arbitrarily (sync.Mutex gives mutual exclusion; the harness overlaps requests at the S3 UploadPart seam)",
     "broker replies are one of: ack, per-partition error code, response without our partition, undecodable frame, connection closed, connection refused",
 ]
 
 MIN_PART = 5 * 1024 * 1024
 BROKERS = ["ack"] * 6 + ["code:6", "code:-1", "code:?", "code:?", "nopartition", "garbage", "close", "refuse"]
 CODES = [0, -1, 1, 2, 3, 6, 7, 10, 87]
+# S3 outcomes of a streamed (single-request) upload's UploadPart calls: persistent / transient (.once), after S3 read the
+# request body (default; what a 500 / response timeout / reset mid-transfer looks like) / before it (.before)
+PART_FAULTS = ["part1", "part1.once", "part2", "part2.once", "part2.once", "part3.once", "part1.once.before", "part2.once.before",
+               "part2.before", "complete.once", "create.once", "create.once.before"]
 
 
 def broker(rng):
@@ -50,10 +66,14 @@ def gen_produce_case(rng):
     mb = rng.choice([0, 0, 0, 100, 5 << 30])
     ops = ["new %d %s" % (mb, rng.choice(["sha256", "sha256", "md5", "crc32", "none"]))]
     for _ in range(rng.range(2, 6)):
-        n = rng.choice([1, 7, 7, 100, 101, 4096, 0]) if not rng.chance(1, 25) else rng.choice([MIN_PART, MIN_PART + 9, MIN_PART - 1])
+        n = rng.choice([1, 7, 7, 100, 101, 4096, 0]) if not rng.chance(1, 16) else rng.choice([MIN_PART, MIN_PART + 9, MIN_PART - 1, 2 * MIN_PART + 1])
         alg = rng.choice(["-", "-", "-", "sha256", "md5", "crc32", "none", "bogus"])
         ck = rng.choice(["absent", "absent", "right", "right", "wrong"])
         fault = "none" if not rng.chance(1, 5) else rng.choice(["put", "create", "part1", "complete", "delete"])
+        if n >= MIN_PART and rng.chance(1, 2):
+            fault = rng.choice(PART_FAULTS)
+        elif fault == "none" and rng.chance(1, 12):
+            fault = rng.choice(["put.once", "put.before", "put.once.before", "delete.once", "create.once"])
         ops.append("produce %d %d %s %s %s %s" % (n, rng.range(1, 250), alg, ck, fault, broker(rng)))
     return ops
 
@@ -133,6 +153,61 @@ def gen_session_case(rng, focused=None):
     return ops
 
 
+def gen_par_case(rng, focused=False):
+    """One session whose part requests OVERLAP (`par`): the same part number sent again while the first PUT is still in
+    its S3 round trip (a timeout retry racing the original), different part numbers at once, with S3 failures, with an
+    abort; then completion requests.  Declared sizes are multiples of the part so that a part counted twice could
+    reach the declared size."""
+    ops = ["new 0 %s" % rng.choice(["sha256", "sha256", "md5", "none"])]
+    f1, f2 = rng.range(1, 250), rng.range(1, 250)
+    last = rng.choice([1, 7, 100, 4096])
+    alg = rng.choice(["-", "-", "md5", "sha256"])
+    ck = rng.choice(["absent", "absent", "right"])
+    P = lambda n, l, f, x=0: "part:%d:%d:%d:%d" % (n, l, f, x)
+    allok = lambda k: ",".join("%d:ok" % n for n in range(1, k + 1))
+    shape = rng.below(10) if not focused else rng.choice([0, 0, 1, 8])
+    br = "ack" if focused else broker(rng)
+    if shape in (0, 1, 2):                 # k equal 5 MiB parts declared; part 1 sent k times at once
+        k = 3 if shape == 2 else 2
+        ops.append("init %d %s %s 0 %s" % (k * MIN_PART, alg, ck, ",".join(["%d:%d" % (MIN_PART, f1)] * k)))
+        ops.append("par " + " ".join([P(1, MIN_PART, f1)] * k))
+        ops.append("complete 1:ok 0 ack")
+        for n in range(2, k + 1):
+            ops.append("part %d %d %d 0" % (n, MIN_PART, f1))
+        ops.append("complete %s 0 %s" % (allok(k), br))
+    elif shape == 3:                       # parts 1 and 2 at once
+        ops.append("init %d %s %s 0 %d:%d,%d:%d" % (MIN_PART + last, alg, ck, MIN_PART, f1, last, f2))
+        ops.append("par %s %s" % (P(1, MIN_PART, f1), P(2, last, f2)))
+        ops.append("complete %s 0 %s" % (allok(2), br))
+    elif shape == 4:                       # the short last part twice at once
+        ops.append("init %d %s %s 0 %d:%d,%d:%d" % (MIN_PART + last, alg, ck, MIN_PART, f1, last, f2))
+        ops.append("part 1 %d %d 0" % (MIN_PART, f1))
+        ops.append("par %s %s" % (P(2, last, f2), P(2, last, f2)))
+        ops.append("complete %s 0 %s" % (allok(2), br))
+    elif shape == 5:                       # the first attempt fails at S3 while the retry waits
+        ops.append("init %d %s %s 0 %d:%d,%d:%d" % (MIN_PART + last, alg, ck, MIN_PART, f1, last, f2))
+        ops.append("par %s %s" % (P(1, MIN_PART, f1, 1), P(1, MIN_PART, f1)))
+        ops.append("part 2 %d %d 0" % (last, f2))
+        ops.append("complete %s 0 %s" % (allok(2), br))
+    elif shape == 6:                       # three requests: part 1 twice and part 2
+        ops.append("init %d %s %s 0 %d:%d,%d:%d" % (2 * MIN_PART, alg, ck, MIN_PART, f1, MIN_PART, f2))
+        ops.append("par %s %s %s" % (P(1, MIN_PART, f1), P(1, MIN_PART, f1), P(2, MIN_PART, f2)))
+        ops.append("complete 1:ok 0 ack")
+        ops.append("complete %s 0 %s" % (allok(2), br))
+    elif shape == 7:                       # an abort arrives while part 1 is in its S3 round trip
+        ops.append("init %d %s %s 0 %d:%d" % (MIN_PART, alg, ck, MIN_PART, f1))
+        ops.append("par %s abort" % P(1, MIN_PART, f1))
+        ops.append("complete 1:ok 0 %s" % br)
+    else:                                  # three 5 MiB parts declared; part 2 sent twice at once, completion lists 1,2
+        ops.append("init %d %s %s 0 %s" % (3 * MIN_PART, alg, ck, ",".join(["%d:%d" % (MIN_PART, f1)] * 3)))
+        ops.append("part 1 %d %d 0" % (MIN_PART, f1))
+        ops.append("par %s %s" % (P(2, MIN_PART, f1), P(2, MIN_PART, f1)))
+        ops.append("complete 1:ok,2:ok 0 ack")
+        ops.append("part 3 %d %d 0" % (MIN_PART, f1))
+        ops.append("complete %s 0 %s" % (allok(3), br))
+    return ops
+
+
 def parse(line):
     left, _, right = line.partition(" | ")
     kv = dict(x.split("=", 1) for x in (left + " " + right).split()[1:] if "=" in x)
@@ -202,6 +277,16 @@ CORPUS = [
      "produce %d 11 - absent none ack" % (2 * MIN_PART + 1), "produce %d 12 - absent part1 ack" % (MIN_PART + 9),
      "produce %d 13 - absent complete ack" % (MIN_PART + 9), "produce %d 14 - wrong none ack" % (MIN_PART + 9)],
     ["new 100 sha256", "produce %d 9 - absent none ack" % (MIN_PART + 9), "produce 101 9 - absent none ack"],
+    # transient S3 failures of a streamed upload, after / before S3 read the part's request body: one attempt per part, 502
+    ["new 0 sha256", "produce %d 21 - absent part2.once ack" % (MIN_PART + 7), "produce %d 22 - absent part1.once ack" % (MIN_PART + 7),
+     "produce %d 23 md5 right part3.once ack" % (2 * MIN_PART + 1), "produce %d 24 - absent part2.once.before ack" % (MIN_PART + 7),
+     "produce %d 25 - absent part1.once ack" % MIN_PART, "produce 7 26 - absent put.once ack", "produce 7 27 - absent put.once.before ack",
+     "produce %d 28 - absent complete.once ack" % (MIN_PART + 7), "produce %d 29 - absent create.once.before ack" % (MIN_PART + 7),
+     "produce %d 30 - absent part3.once ack" % (MIN_PART + 7)],
+    # overlapping PUTs of the same part (timeout retry racing the original): the second is an idempotent re-PUT, counted once
+    ["new 0 sha256", "init %d - absent 0 %d:1,%d:1" % (2 * MIN_PART, MIN_PART, MIN_PART), "par part:1:%d:1:0 part:1:%d:1:0" % (MIN_PART, MIN_PART),
+     "complete 1:ok 0 ack", "part 2 %d 1 0" % MIN_PART, "complete 1:ok,2:ok 0 ack"],
+    ["new 0 sha256", "init %d - absent 0 %d:1,7:2" % (MIN_PART + 7, MIN_PART), "par part:1:%d:1:0 part:2:7:2:0" % MIN_PART, "complete 1:ok,2:ok 0 ack"],
     ["new 0 md5", "init %d md5 right 0 %d:1,7:2" % (MIN_PART + 7, MIN_PART), "part 1 %d 1 0" % MIN_PART, "part 2 7 2 0", "part 1 %d 1 0" % MIN_PART,
      "complete 1:ok,2:ok 0 ack"],
 ]
@@ -228,6 +313,8 @@ def evaluate(ck, binary, cases):
                 continue
             _, kv = parse(line)
             ck.count("%s:%s" % (k, kv.get("status", "?")))
+            if k == "par":
+                ck.count("par-max-requests-inside-S3-at-once:%s" % kv.get("overlap", "?"))
             if k in ("produce", "complete"):
                 bk = op.split()[-1]
                 ck.count("broker:" + (bk.split(":")[0] if not bk.startswith("code:") else
@@ -258,6 +345,9 @@ def hunt(ck, binary):
     """A correspondence broke without a monitor hit: search for a concrete failing input (monitor only)."""
     ck.log("hunting for a concrete failing input")
     cases = [gen_session_case(ck.rng.fork(), focused=True) for _ in range(120)]
+    cases += [gen_par_case(ck.rng.fork(), focused=True) for _ in range(12)]
+    cases += [["new 0 sha256"] + ["produce %d %d - absent %s ack" % (n, ck.rng.range(1, 250), f) for n in (MIN_PART, MIN_PART + 7, 2 * MIN_PART + 1)
+                                for f in ("part1.once", "part2.once", "part3.once", "part2.once.before")]]
     cases += [["new 0 sha256"] + ["produce %d %d - %s none %s" % (ck.rng.choice([1, 7, 100]), ck.rng.range(1, 250), ck.rng.choice(["absent", "right"]), b)
                                 for b in ("ack", "code:6", "code:1", "code:-1", "code:-32768", "code:0", "nopartition", "garbage", "close")] for _ in range(5)]
     all_ops, bounds = [], []
@@ -284,15 +374,20 @@ def run(ck):
     ck.log("harness built")
     n_prod = 80 if ck.quick() else 1500
     n_sess = 60 if ck.quick() else 1200
+    n_par = 20 if ck.quick() else 300
     ck.cov["rule"] = ("cases = `new` + 2-5 single-request uploads (body size, algorithm, checksum, S3 fault, broker reply) or one "
                       "multipart session history (init, 1-3 parts with 5 MiB non-final parts, failures/re-PUTs/out-of-order, "
-                      "completion list variants, broker replies, abort/expire, repeated completion); non-trivial = an object was "
+                      "completion list variants, broker replies, abort/expire, repeated completion) or one session whose part "
+                      "requests overlap at the S3 UploadPart seam (`par`: same part twice/thrice, different parts, S3 failure + "
+                      "retry, abort) ; S3 faults persistent/transient, after/before S3 read the request body; non-trivial = an object was "
                       "stored; distinct = distinct op sequences")
     cases = [list(c) for c in CORPUS]
     for _ in range(n_prod):
         cases.append(gen_produce_case(ck.rng.fork()))
     for _ in range(n_sess):
         cases.append(gen_session_case(ck.rng.fork()))
+    for _ in range(n_par):
+        cases.append(gen_par_case(ck.rng.fork()))
     evaluate(ck, bins["h"], cases)
     if ck.broken and not ck.violations:
         hunt(ck, bins["h"])
